@@ -214,7 +214,6 @@ def execute(spec, ctx):
                         raise Violation("c03:supercell-count", "unit-cell occurrence %s appears %d times in the %s supercell, expected %d"
                                         % (sorted(g), counts.get(g, 0), dims, mult), site="find")
             ctx.count("supercell_comparisons")
-            ctx.key("repl", spec.get("real"), pos.tolist()[:3], dims)
             continue
         resB, nB, _ = _search(ctx, els_b, pos_b, cell, pel, P_b, atol, hints_b, script_b)
         mappedB = {frozenset(back[j] for j in g): mx for g, mx in resB.items()}
@@ -231,10 +230,9 @@ def execute(spec, ctx):
                 raise Violation("c03:group-gained-under-%s" % kind, "group %s (residual %.3g, atol %g) found only after %s"
                                 % (sorted(g), mx, atol, _describe(rep)), site="find")
         ctx.count("pair_comparisons")
-        if base:
-            ctx.key(spec.get("real"), spec.get("positions", [])[:4], rep)
     if certified_any:
         ctx.count("runs_with_certified_groups")
+        ctx.key(spec.get("real"), spec.get("positions"), spec.get("pattern"), spec["reps"])
 
 
 def _describe(rep):
